@@ -138,6 +138,9 @@ try:
                 corrupt("later-occurrence-tag", later_field("tag", lambda k: (k["tag"] + 1) % 65536), pol_over={"check_keys_match_ksk_operator_policy": False})
                 corrupt("later-occurrence-ttl", later_field("ttl", lambda k: k["ttl"] + 1), pol_over={"check_keys_match_ksk_operator_policy": False})
                 corrupt("duplicate-bundle-id", lambda r: r["bundles"][-1].update(id=r["bundles"][0]["id"]))
+                if len(req["bundles"]) >= 3:
+                    corrupt("duplicate-bundle-id-not-adjacent", lambda r: r["bundles"][2].update(id=r["bundles"][0]["id"]))
+                    corrupt("duplicate-bundle-id-adjacent", lambda r: r["bundles"][1].update(id=r["bundles"][0]["id"]))
             # declared size / exponent mismatch
             rsa_fams = [f for f in fams if ALG_OF[f][0] == "RSA"]
             if rsa_fams:
